@@ -13,7 +13,7 @@
       digits" of SciTrip.v / RealIdem.v is not carried out).  No per-field hypothesis is left. *)
 From Coq Require Import Ascii String List Bool Arith ZArith NArith.
 From PTBase Require Import Exn PyStr PyNum PyVal Fmt FixedFormat.
-From Gen Require Import GenTables GenNames GenPad.
+From Gen Require Import GenTables GenNames GenPad GenRead.
 From P Require Import Digits SciTrip Num RealIdem Names InconIO Wf Lines Blocks RoundTrip Idem Bridge Fields Fits Stable Current.
 Import ListNotations.
 
@@ -132,6 +132,19 @@ Theorem incon_second_write_identical : forall nv check reset i, wf_fits nv check
 Proof. exact second_write_identical_stable. Qed.
 Print Assumptions incon_second_write_identical.
 
+(** reading into a used object ([inc.read(filename)]): nothing of the object read into reaches the
+    result except its flavour; with a TOUGH2 (or fresh) object it is [read] *)
+Theorem incon_read_into_used_tough2_object : forall old nv check ls, sim old = TOUGH2 -> read_used old nv check ls = read nv check ls.
+Proof. exact read_used_tough2_is_read. Qed.
+Print Assumptions incon_read_into_used_tough2_object.
+Theorem incon_read_into_used_object_once_flavour_is_reset : forall old nv check ls, read_resets_flavour = true -> read_used old nv check ls = read nv check ls.
+Proof. exact read_used_is_read_once_flavour_is_reset. Qed.
+Print Assumptions incon_read_into_used_object_once_flavour_is_reset.
+Theorem incon_read_into_used_object_flavour_only : forall old1 old2 nv check ls, sim old1 = sim old2 ->
+  read_used old1 nv check ls = read_used old2 nv check ls.
+Proof. exact read_used_depends_on_flavour_only. Qed.
+Print Assumptions incon_read_into_used_object_flavour_only.
+
 (** writing has no effect on the object: the model's [write] returns lines only (the object after a
     write IS the object; the implementation's object is compared with it after two writes in the
     correspondence), so no write depends on the writes before it, in either order of [reset] *)
@@ -188,7 +201,7 @@ Theorem gen_padstring_is_model : forall s, (0 <= padstring_default_length)%Z ->
 Proof. exact gen_padstring_spec. Qed.
 Print Assumptions gen_padstring_is_model.
 
-(** the three recorded defects of the current code (known_findings.txt), as theorems about the
+(** the four recorded defects of the current code (known_findings.txt), as theorems about the
     faithful model: the unguarded statements are false *)
 Theorem flavour_roundtrip_refuted :
   exists i ls j, write false i = Ok ls /\ read (Some 2) true ls = Ok j /\
@@ -205,3 +218,8 @@ Theorem lowered_precision_rewrite_refuted :
                      read (Some 2) true ls = Ok j /\ write true j = Ok ls2 /\ lines_eqb ls ls2 = false.
 Proof. exact Current.lowered_precision_rewrite_refuted. Qed.
 Print Assumptions lowered_precision_rewrite_refuted.
+Theorem read_into_used_object_refuted : read_resets_flavour = false ->
+  exists old i ls j u, write false i = Ok ls /\ read (Some 2) true ls = Ok j /\ read_used old (Some 2) true ls = Ok u /\
+                       sim j = TOUGH2 /\ sim u = TOUGHREACT /\ timing_kcyc j = Some 11100%Z /\ timing_kcyc u = Some 111004%Z.
+Proof. exact Current.read_into_used_object_refuted. Qed.
+Print Assumptions read_into_used_object_refuted.
